@@ -43,7 +43,7 @@ def enumerated(tier, seed):
 
 
 def searches(tier):
-    n = 1200 if tier == "quick" else 120000
+    n = 1200 if tier == "quick" else 60000
     return [("roundtrip", _roundtrip, n), ("foreign", _foreign, n)]
 
 
